@@ -448,6 +448,9 @@ impl Prop for C09 {
       _ => panic!("unknown task {}", t),
     }
   }
+  fn cold_subs(&self) -> Vec<(&'static str, i64, i64, fn(i64) -> Vec<i64>)> {
+    vec![("compose", 0, crate::model::NDAYS as i64 - 366, |x| vec![x, (x * 7919).rem_euclid(86400)])]
+  }
   fn eval(&self, env: &Env, out: &mut Out, sub: &str, case: &Case) {
     match sub {
       "hour" | "hour_rand" => self.eval_hour(env, out, sub, case),
